@@ -1,10 +1,12 @@
 /-
   C04  Formatting renders every field exactly as the picture specifies.
-  Layer 1 (this file, so far): every string table the formatter indexes — regenerated from the Rust source on
-  each run — equals the arithmetic rendering it stands for.  A changed table entry breaks the build here.
+  Layer 1: every string table the formatter indexes — regenerated from the Rust source on each run — equals the
+  arithmetic rendering it stands for (a changed table entry breaks the build here).
+  Layer 2: for all six types, every value and every picture, `format` = `Spec.render` (Spec/Render.lean).
 -/
 import SqlDt.Lemmas.Digits
 import SqlDt.Lemmas.RenderTypes
+import SqlDt.Lemmas.RenderAll
 import SqlDt.Lemmas.WellFormed
 import SqlDt.Model.Parse
 namespace SqlDt.C04
@@ -79,6 +81,49 @@ theorem format_date (y m d : Int) (h : ValidYMD y m d) (pic : Bytes) :
   | ok fields =>
     simp only [bind, Except.bind]
     exact Lemmas.format_date y m d h fields (Lemmas.tryNew_wf pic fields ht)
+
+/-- Helper: from the picture text. -/
+theorem from_picture (ty : Ty) (v : Int) (c : Comps) (pic : Bytes)
+    (h : ∀ fields, (∀ f ∈ fields, Lemmas.Field.WellFormed f) →
+      Formatter.format ty v fields none = Lemmas.toChk (render ty c fields)) :
+    formatValue ty v pic none = (Lexer.tryNew pic).bind fun fields => Lemmas.toChk (render ty c fields) := by
+  unfold formatValue
+  cases ht : Lexer.tryNew pic with
+  | error e => rfl
+  | ok fields =>
+    simp only [bind, Except.bind]
+    exact h fields (Lemmas.tryNew_wf pic fields ht)
+
+/-- TIMES OF DAY: every (hour<24, minute<60, second<60, µs<10^6) and every picture; fractional seconds are TRUNCATED to
+    the requested digits (`Spec.fractionOf`), never rounded – including `FF7..FF9`, whose divisors 0.1/0.01/0.001 are
+    not exact doubles (Lemmas/Float.fraction_eq). -/
+theorem format_time (h mi s us : Int) (hh : 0 ≤ h ∧ h < 24) (hm : 0 ≤ mi ∧ mi < 60) (hs : 0 ≤ s ∧ s < 60)
+    (hu : 0 ≤ us ∧ us < 1000000) (pic : Bytes) :
+    formatValue .T (Time.fromHmsUnchecked h mi s us) pic none =
+      (Lexer.tryNew pic).bind fun fields => Lemmas.toChk (render .T (Lemmas.compsOfTime h mi s us) fields) :=
+  from_picture .T _ _ pic (fun fields hwf => Lemmas.format_time h mi s us hh hm hs hu fields hwf)
+
+/-- TIMESTAMPS and ORACLE-STYLE DATES (`us = 0`): every real date of years 1..9999 with every time of day. -/
+theorem format_timestamp (ty : Ty) (hty : ty = .TS ∨ ty = .OD) (y m d h mi s us : Int) (hv : ValidYMD y m d)
+    (hh : 0 ≤ h ∧ h < 24) (hm : 0 ≤ mi ∧ mi < 60) (hs : 0 ≤ s ∧ s < 60) (hu : 0 ≤ us ∧ us < 1000000) (pic : Bytes) :
+    formatValue ty (Lemmas.tsOf y m d h mi s us) pic none =
+      (Lexer.tryNew pic).bind fun fields => Lemmas.toChk (render ty (Lemmas.compsOfTs y m d h mi s us) fields) :=
+  from_picture ty _ _ pic (fun fields hwf => Lemmas.format_ts ty hty y m d h mi s us hv hh hm hs hu fields hwf)
+
+/-- YEAR-MONTH INTERVALS `±(y years, mo months)`: sign first, once. -/
+theorem format_interval_ym (neg : Bool) (y mo : Int) (hy : 0 ≤ y ∧ y ≤ 178000000) (hm : 0 ≤ mo ∧ mo < 12)
+    (hz : neg = true → y * 12 + mo ≠ 0) (pic : Bytes) :
+    formatValue .YM (Lemmas.ymOf neg y mo) pic none =
+      (Lexer.tryNew pic).bind fun fields => Lemmas.toChk (render .YM (Lemmas.compsOfYM neg y mo) fields) :=
+  from_picture .YM _ _ pic (fun fields hwf => Lemmas.format_ym neg y mo hy hm hz fields hwf)
+
+/-- DAY-TIME INTERVALS `±(d days, h:mi:s.µs)`. -/
+theorem format_interval_dt (neg : Bool) (d h mi s us : Int) (hd : 0 ≤ d ∧ d ≤ 100000000) (hh : 0 ≤ h ∧ h < 24)
+    (hm : 0 ≤ mi ∧ mi < 60) (hs : 0 ≤ s ∧ s < 60) (hu : 0 ≤ us ∧ us < 1000000)
+    (hz : neg = true → Lemmas.dtMag d h mi s us ≠ 0) (pic : Bytes) :
+    formatValue .DT (Lemmas.dtOf neg d h mi s us) pic none =
+      (Lexer.tryNew pic).bind fun fields => Lemmas.toChk (render .DT (Lemmas.compsOfDT neg d h mi s us) fields) :=
+  from_picture .DT _ _ pic (fun fields hwf => Lemmas.format_dt neg d h mi s us hd hh hm hs hu hz fields hwf)
 
 /-- Non-vacuity + a worked instance. -/
 example : ValidYMD 2024 2 29 ∧
